@@ -1236,3 +1236,116 @@ func RunConcDDL(c *core.Ctx) {
 		c.Cell("conc-ddl|%s|readers%d|ends-indexed=%v", backendClass(backend), readers, indexed)
 	}
 }
+
+// RunConcOversized: a reader counts the documents of one batch while another goroutine inserts that batch, which
+// is larger than badger's default transaction size (bbolt has no such limit). Whatever the store does with a
+// transaction of that size - refuse it, or take it - the reader sees none or all of the batch, and a refused
+// batch leaves nothing behind.
+func RunConcOversized(c *core.Ctx) {
+	r := c.R
+	backend := []string{BadgerShip, BBolt, BadgerShip}[c.Case%3]
+	h, err := Open(c, backend, "")
+	if err != nil {
+		c.Violate("open-error", "opening %s failed: %v", backend, err)
+		return
+	}
+	defer h.Destroy()
+	c.Backend = backend
+	if err := h.DB.CreateCollection("big"); err != nil {
+		c.Violate("setup", "%v", err)
+		return
+	}
+	if r.Bool() {
+		h.DB.CreateIndex("big", "a")
+	}
+	const n = 14
+	blob := strings.Repeat("x", 900<<10)
+	docs := make([]*document.Document, n)
+	for i := range docs {
+		d := document.NewDocument()
+		d.Set("_id", r.UUID())
+		d.Set("a", int64(i))
+		d.Set("batch", int64(1))
+		d.Set("blob", blob)
+		docs[i] = d
+	}
+	dup := r.Bool()
+	if dup {
+		docs[n-1].Set("_id", docs[0].ObjectId()) // the batch fails at its very end
+	}
+	var stop int32
+	var wg sync.WaitGroup
+	var torn atomic.Value
+	var reads int64
+	seen := map[int]bool{}
+	var seenMu sync.Mutex
+	for k := 0; k < 2; k++ {
+		wg.Add(1)
+		go func() {
+			defer wg.Done()
+			for atomic.LoadInt32(&stop) == 0 {
+				core.Tick()
+				cnt, err := h.DB.Count(query.NewQuery("big").Where(query.Field("batch").Eq(int64(1))))
+				atomic.AddInt64(&reads, 1)
+				if err != nil {
+					torn.CompareAndSwap(nil, fmt.Sprintf("Count failed: %v", err))
+					return
+				}
+				seenMu.Lock()
+				seen[cnt] = true
+				seenMu.Unlock()
+				if cnt != 0 && cnt != n {
+					torn.CompareAndSwap(nil, fmt.Sprintf("a reader counted %d of the %d documents of one Insert call", cnt, n))
+					return
+				}
+			}
+		}()
+	}
+	for atomic.LoadInt64(&reads) < 2 {
+		time.Sleep(50 * time.Microsecond)
+	}
+	insErr := Do(func() error { return h.DB.Insert("big", docs...) })
+	base := atomic.LoadInt64(&reads)
+	for t := 0; t < 400 && atomic.LoadInt64(&reads) < base+2; t++ {
+		time.Sleep(50 * time.Microsecond)
+	}
+	atomic.StoreInt32(&stop, 1)
+	wg.Wait()
+	c.Eval(int(reads))
+	if pe, ok := IsPanic(insErr); ok {
+		c.Violate(PanicSig(pe), "Insert of %d x 900 KB panicked: %v\n%s", n, pe.Val, trim(pe.Stack, 20))
+		return
+	}
+	if v := torn.Load(); v != nil {
+		c.Violate("conc:torn-oversized-batch", "%s (%s, Insert returned %v)", v, backend, insErr)
+		return
+	}
+	if dup && insErr == nil {
+		c.Violate("conc:oversized-accepted", "Insert of a batch whose last document repeats the first id returned success on %s", backend)
+		return
+	}
+	cnt, err := h.DB.Count(query.NewQuery("big"))
+	want := n
+	if insErr != nil {
+		want = 0
+	}
+	if err != nil || cnt != want {
+		c.Violate("conc:oversized-partial-effect", "Insert of %d x 900 KB on %s returned %v, and the collection now holds %d documents (%v); want %d", n, backend, insErr, cnt, err, want)
+		return
+	}
+	s := NewS(c, h)
+	mc := model.NewColl()
+	if insErr == nil {
+		for _, d := range docs {
+			mc.Docs[d.ObjectId()] = model.FromDoc(d)
+		}
+	}
+	if has, _ := h.DB.HasIndex("big", "a"); has {
+		mc.Indexes["a"] = true
+	}
+	s.m.Colls["big"] = mc
+	s.AuditPhysical("oversized insert next to readers")
+	if !s.failed {
+		c.Cell("conc-oversized|%s|accepted=%v|duplicate-last=%v", backendClass(backend), insErr == nil, dup)
+	}
+}
